@@ -100,6 +100,13 @@ def _has_rewrite_path(world, table, rule, L, Rc) -> bool:
     return False
 
 
+def _ancestors(node, stop):
+    cur = getattr(node, '_parent', None)
+    while cur is not None and cur is not stop:
+        yield cur
+        cur = getattr(cur, '_parent', None)
+
+
 def import_order(world) -> dict[str, int]:
     """Rank of every module in the order in which a first import of the package finishes executing them."""
     order: list[str] = []
@@ -409,8 +416,46 @@ def run(ctx, ck) -> None:
                 f = ev[1].value.func
                 if isinstance(f, ast.Attribute) and f.attr == 'apply' and isinstance(f.value, ast.Name) and f.value.id in rule_vars:
                     renorm[rule_vars[f.value.id]] = True
+    # a re-normalisation written another way (in a helper, on another list...): present and effective, but not in the recognised place
+    from .c04 import _self_closure as _closure4
+
+    elsewhere = {ident.name: [], homo.name: []}
+    scopes4 = [fn] + list(_closure4(table, table.get(f'{RULES}.AlgebraicReductionRule'), fn).values())
+    for sc in scopes4:
+        local_rules = dict(rule_vars) if sc is fn else {}
+        for n in ast.walk(sc):
+            if not (isinstance(n, ast.Call) and isinstance(n.func, ast.Attribute) and n.func.attr == 'apply'):
+                continue
+            recv = n.func.value
+            kname = None
+            if isinstance(recv, ast.Name) and recv.id in local_rules:
+                kname = local_rules[recv.id]
+            elif isinstance(recv, ast.Call):
+                q = world.qualify(module_of(recv), recv.func)
+                kname = ident.name if q == f'{RULES}.IdentityRule' else homo.name if q == f'{RULES}.HomothetyRule' else None
+            if kname is None or (sc is fn and not any(n is x for lp in [w for w in ast.walk(fn) if isinstance(w, ast.While)] for x in ast.walk(lp))):
+                continue
+            par = getattr(n, '_parent', None)
+            effective = False
+            if isinstance(par, ast.Return):
+                effective = True
+            elif isinstance(par, ast.Assign) and par.value is n:
+                tgt = par.targets[0]
+                if isinstance(tgt, ast.Subscript):
+                    effective = True  # stored into a list (in place)
+                elif isinstance(tgt, ast.Name):
+                    later = [x for x in ast.walk(sc) if isinstance(x, ast.Name) and x.id == tgt.id and isinstance(x.ctx, ast.Load) and (x.lineno, x.col_offset) > (par.end_lineno, par.end_col_offset)]
+                    in_loop = any(isinstance(a, (ast.While, ast.For)) for a in _ancestors(par, sc))
+                    effective = bool(later) or in_loop
+            elsewhere[kname].append(effective)
     for k, prods in producers.items():
-        if prods:
+        if prods and not renorm[k] and any(elsewhere[k]):
+            ck.incomplete('N4', fn, f'{k} may be produced by {prods[:3]}; the n-ary rule for {k} is re-applied after a rewrite, but not in the arrangement this clause recognises '
+                          '(in a helper, or on another list): whether the normal form is reached is not decided', instance=f're-normalise {k}')
+        elif prods and not renorm[k] and elsewhere[k]:
+            ck.bad('N4', fn, f'rules {prods[:4]} may produce a {k}; the n-ary rule for {k} is applied after a rewrite but its result is dropped (bound to a name that is never read again): '
+                   'the chain the scan goes on with still contains the factor', instance=f're-normalise {k}')
+        elif prods:
             ck.expect('N4', renorm[k], fn, f'{k} may be produced by {prods[:3]}...; the rewrite path re-applies the n-ary rule for {k}',
                       f'rules {prods[:4]} may produce a {k} (e.g. a block-diagonal of identities reduces to the identity), but after a rewrite the driver never re-applies the n-ary rule for {k}: the normal form (no identity factor, one scalar) is not reached', instance=f're-normalise {k}')
         else:
